@@ -239,7 +239,13 @@ def job_fit(job, n, inf_hi=False):
                       pr.pc + [T.b_or(*inside)], bound=f"{n} samples", replay=rp)
             # the optimiser is asked for the plain problem: unweighted residuals, linear loss (scipy's defaults); anything else
             # (sigma, loss=..., f_scale=...) minimises another functional and M is no longer the least-squares optimum
-            odd = {k: v for k, v in c["kw"].items() if not (k == "loss" and v == "linear")}
+            # only arguments that change the functional being minimised count (solver choices such as method, ftol,
+            # max_nfev, x_scale do not): a non-linear loss (with its f_scale) and residual weights
+            odd = {}
+            if c["kw"].get("loss", "linear") not in ("linear", None):
+                odd["loss"] = c["kw"]["loss"]
+                if "f_scale" in c["kw"]:
+                    odd["f_scale"] = "given"
             if c["sigma"] is not None:
                 odd["sigma"] = "given"
             if odd:
